@@ -56,6 +56,20 @@ fn check(c: &Case) -> CaseResult {
     let h = &b.header;
     let kind = if c.asyncr { "async" } else { "sync" };
     let bounds = c.range.as_ref().map(|r| r.bounds(&b.steer));
+    // every third case first opens, on this thread, a sibling archive whose header is identical (same section offsets,
+    // lengths and counters) but whose tile ids are all shifted by one: the open under test still has to read *its own*
+    // directories, which shows in the ids it lists
+    let mut after_sibling = false;
+    if c.l.first_id % 3 == 1 && !c.l.to_end {
+        let mut l2 = c.l.clone();
+        l2.first_id += 1;
+        let b2 = writer::build(&l2);
+        if b2.header.root_len == h.root_len && b2.header.leaf_len == h.leaf_len && b2.bytes.len() == b.bytes.len() {
+            let _ = guarded("from_reader", || PMTiles::from_reader(std::io::Cursor::new(b2.bytes.clone())).map(|pm| pm.num_tiles()))?;
+            let _ = guarded("from_async_reader", || block_on(PMTiles::from_async_reader(futures::io::Cursor::new(b2.bytes.clone()))).map(|pm| pm.num_tiles()))?;
+            after_sibling = true;
+        }
+    }
     let s = Stream::new(b.bytes.clone(), 0, if c.cap > 0 { Sched::fixed_cap(c.cap) } else { Sched::none() }, false);
     let allowed = merge(vec![(0, 127), (h.meta_off, h.meta_off + h.meta_len), (h.root_off, h.root_off + h.root_len), (h.leaf_off, h.leaf_off + h.leaf_len)]);
     let data = (h.data_off, h.data_off + h.data_len);
@@ -77,6 +91,11 @@ fn check(c: &Case) -> CaseResult {
             let ids: Vec<u64> = pm.tile_ids().into_iter().copied().collect();
             let mut ids = ids;
             ids.sort_unstable();
+            if bounds.is_none() {
+                ensure!(ids == b.expected.keys().copied().collect::<Vec<u64>>(), format!("C20/ids-differ/{kind}"), "the opened archive lists {} ids, its directories address {} (sibling archive opened before: {after_sibling})", ids.len(), b.expected.len());
+            } else if let Some(x) = ids.iter().find(|i| !b.expected.contains_key(i)) {
+                fail!(format!("C20/ids-differ/{kind}"), "the partially opened archive lists id {x}, which its directories do not address (sibling archive opened before: {after_sibling})");
+            }
             let mut looked = 0;
             let mut after_sweep: Option<usize> = None;
             for sel in &c.lookups {
@@ -202,6 +221,7 @@ fn check(c: &Case) -> CaseResult {
         .label(looked > 0, "lookups")
         .label(retried, "retry-after-transient-fault")
         .label(swept, "ascending-sweep-of-consecutive-ids")
+        .label(after_sibling, "after-a-sibling-archive-with-an-identical-header")
         .label(c.cap > 0, "short-reads")
         .label(true, super::c01::codec_label(c.l.internal)))
 }
